@@ -284,13 +284,22 @@ func (s *Server) handleInsertRecord(w http.ResponseWriter, r *http.Request) {
 		}
 	}
 
+	// Validate the whole batch before applying any of it: a rejected request
+	// must not leave part of its records behind, and a vector of the wrong
+	// size would make AddDocument panic.
+	dimensions := collection.GetOptions().DimensionCount
 	for _, record := range records {
-		// Ensure a vector is present
 		if record.Vector == nil {
 			http.Error(w, "Either vector or text must be provided", http.StatusBadRequest)
 			return
 		}
+		if len(record.Vector) != dimensions {
+			http.Error(w, fmt.Sprintf("Record %d: vector has %d dimensions, collection expects %d", record.ID, len(record.Vector), dimensions), http.StatusBadRequest)
+			return
+		}
+	}
 
+	for _, record := range records {
 		metadataBytes, err := json.Marshal(record.Metadata)
 		if err != nil {
 			http.Error(w, "Failed to encode metadata", http.StatusInternalServerError)
